@@ -154,8 +154,9 @@ def step (_ : Unit) (ts : List String) : Unit × String :=
           -- tie of `opt_equiv`: inside the proved fragment the two REAL statements must be the model pair's statements (and parameterless)
           let frag := match q with
             | some cq =>
-              -- either join order of a hop is a statement of the model (`trVariant` takes the direction choice as a parameter)
-              let cands := fun (fast : Bool) => [C02.trVariant (fun _ => false) (fun _ => false) (fun _ => false) fast km cq, C02.trVariant (fun _ => true) (fun _ => true) (fun _ => true) fast km cq].filterMap id
+              -- either join order of a hop is a statement of the model (`trVariantL` takes the direction choice as a parameter; on a hop with
+              -- LIMIT and no ORDER BY the optimised model statement carries the LIMIT on the frame as well: limit pushdown)
+              let cands := fun (fast : Bool) => [C02.trVariantL (fun _ => false) (fun _ => false) (fun _ => false) fast km cq, C02.trVariantL (fun _ => true) (fun _ => true) (fun _ => true) fast km cq].filterMap id
               match cands true, cands false with
               | [], _ => ""
               | _, [] => ""
